@@ -248,6 +248,19 @@ theorem C11_send_leaves_table (f : Facts) (s s' : St) (e : Ev)
 /-- The regenerated facts about today's `handleGet` are in the good region. -/
 theorem C11_facts_good : Mcp.Gen.handleGetFacts.good = true := by decide
 
+/-- The model's `store` and `exit_` are single steps because the code performs each in ONE exclusive critical section of the
+    stream-table lock (regenerated): registration = look up the session's entry, cancel the stream found, store the new
+    one; exit = "is the entry still mine?" and the delete. Split in two critical sections, two racing re-opens can both
+    stay open, and an old stream's exit can evict a stream registered between its check and its delete — schedules the
+    model does not contain, so the theorems above would say nothing about such code. -/
+theorem C11_steps_atomic_fact : Mcp.Gen.handleGetStoreAtomic = true ∧ Mcp.Gen.handleGetExitAtomic = true := by decide
+
+/-- Client side of the same rule (`streamable_client.go establishGetSSE`, regenerated): a re-open cancels the previous
+    stream's context and installs the new one under the slot's mutex, and a reader goroutine that exits cancels / replaces
+    nothing in the shared slot — by then the slot may belong to a newer stream ("a stream that ends removes only
+    itself"). -/
+theorem C11_client_slot_fact : Mcp.Gen.clientGetReplaceLocked = true ∧ Mcp.Gen.clientGetExitOwnOnly = true := by decide
+
 /-- Witness for the bad region "exit deletes by key" (the tree before its `fix:` commit): after a reconnect the old
     handler's exit evicts the new stream and a send fails although stream 1 is listening. -/
 theorem C11_bad_exit_witness :
